@@ -84,7 +84,8 @@ def gen_group(rng, et, n, small_domain=False):
                 objs = list(hashed_objs[p['name']])
                 rng.shuffle(objs)
             elif p['name'] == et['vp']:
-                objs = [rng.choice(['1', '2', '3'])]
+                # (versions are numbers: 9 < 10 < 11 < 20 < 100, whatever their digits say)
+                objs = [rng.choice(['1', '2', '3'] if rng.random() < 0.6 else ['9', '10', '11', '20', '100'])]
             else:
                 lo = 0 if p['optional'] else 1
                 hi = 3 if p['multi'] else 1
